@@ -263,4 +263,52 @@ def rule_c(ctx: Ctx) -> None:
                 'resource and at the three call sites that decide whether a schema document is already loaded.')
 
 
-RULES = [rule_a, rule_b, rule_c]
+def rule_d(ctx: Ctx) -> None:
+    """Building twice: build() starts from a clean slate — every map it fills is emptied by clear(), which it calls first;
+    protect_status saves and restores the same maps (sibling agreement)."""
+    rule = 'C09.d'
+    idx = ctx.idx
+    b = idx.func(f'{GLOB}.build')
+    filled = set()
+    for c in calls(b.node):
+        if isinstance(c.func, ast.Attribute) and c.func.attr in ('update', 'load', 'build') and text(c.func.value).startswith('self.') \
+                and text(c.func.value).count('.') == 1:
+            filled.add(text(c.func.value)[5:])
+    filled.discard('types')      # build_builtins fills a member of global_maps
+    ctx.floor(rule, 'maps filled by XsdGlobals.build', len(filled), 3)
+    cl = idx.func(f'{GLOB}.clear')
+    g = cfg_of(ctx, cl)
+    cleared = set()
+    for n, c in call_nodes(g, lambda c: isinstance(c.func, ast.Attribute) and c.func.attr == 'clear' and text(c.func.value).startswith('self.')):
+        if not guards(ctx, cl, n):
+            cleared.add(text(c.func.value)[5:])
+    for a in sorted(filled):
+        ok = a in cleared
+        ctx.ob(rule, f'XsdGlobals.clear() unconditionally empties `{a}`, which build() fills', cl.loc(), ok,
+               '' if ok else f'a second build() starts with the `{a}` of the previous build: stale components are found by name and reused',
+               key=f'XsdGlobals.clear|{a}')
+    ok = 'cache' in cleared
+    ctx.ob(rule, 'XsdGlobals.clear() drops the method cache (its entries refer to the components being discarded)', cl.loc(), ok, '', key='XsdGlobals.clear|cache')
+    gb = cfg_of(ctx, b)
+    clr = [n for n, c in call_nodes(gb, lambda c: text(c.func) == 'self.clear')]
+    fills = [n for n, c in call_nodes(gb, lambda c: isinstance(c.func, ast.Attribute) and c.func.attr in ('update', 'load', 'build') and
+                                     text(c.func.value).startswith('self.') and text(c.func.value)[5:] in filled)]
+    dom = gb.dominators(kinds='nTF')
+    ok = bool(clr) and all(clr[0] in dom[n] for n in fills)
+    ctx.ob(rule, 'XsdGlobals.build() clears the maps before it fills them', b.loc(), ok, '', key='XsdGlobals.build|clear-first')
+    ps = idx.func(f'{GLOB}.protect_status')
+    saved = {text(s_.value.func.value)[5:] for s_ in walk_no_nested(ps.node) if isinstance(s_, ast.Assign) and isinstance(s_.value, ast.Call)
+             and isinstance(s_.value.func, ast.Attribute) and s_.value.func.attr == 'copy' and text(s_.value.func.value).startswith('self.')}
+    restored = {text(c.func.value)[5:] for c in calls(ps.node) if isinstance(c.func, ast.Attribute) and c.func.attr == 'update'
+                and text(c.func.value).startswith('self.')}
+    ok = filled <= saved and filled <= restored
+    ctx.ob(rule, 'protect_status saves and restores every map that build() fills', ps.loc(), ok,
+           '' if ok else f'filled {sorted(filled)}, saved {sorted(saved)}, restored {sorted(restored)}', key='XsdGlobals.protect_status|maps')
+    # a schema's own cached state is dropped with the maps
+    ok = any(text(c.func) == 'schema.clear' for c in calls(cl.node))
+    ctx.ob(rule, 'XsdGlobals.clear() also clears the cached state of the schemas it owns', cl.loc(), ok, '', key='XsdGlobals.clear|schemas')
+    ctx.explain('C09.d: the maps filled by build() ⊆ the maps unconditionally emptied by clear() ⊆ the maps saved/restored by '
+                'protect_status; build() calls clear() before any fill (dominance).')
+
+
+RULES = [rule_a, rule_b, rule_c, rule_d]
